@@ -173,6 +173,22 @@ PROPS = {
         "assumptions": ["accessor-level methods (sortby / label slicing / concat) are not proved symbolically: bounded replays only"],
         "technique": "contract-based deductive verification of the mask kernels (is_overlap, waveage, celerity) + run-time contracts with independent oracles for the accessor methods (bounded)",
     },
+    "C03": {
+        "level": "other",
+        "engines": [{"kind": "pyse"}, {"kind": "bounded_c", "which": "c04"}],
+        "explanation": "PROVED for all inputs: partition.watershed hands the C routine a C-contiguous float32 copy with unchanged values for "
+        "every memory layout; npstats.hs (the Hs used for ordering) equals the trapezoid-in-frequency integral. BOUNDED (run-time contracts of "
+        "the real np_ptm1/2/3 and of the accessor methods, independent oracle, seeded multi-modal / noisy / plateaued / sparse spectra, every "
+        "run): every bin is the original density or zero, no bin in two partitions, partitions add up to the input when enough are requested "
+        "(else to no more, the dropped ones being the smallest), exactly the requested number of partitions, wind sea first (PTM1: union of the "
+        "basins whose wind-sea fraction exceeds the cutoff; PTM2: plus the wind-sea bins of the swells second), swells in non-increasing "
+        "npstats.hs order with empty ones last, per-spectrum application with smooth=True/False. The label map the post-conditions rest on "
+        "(every bin labelled 1..n) is the bounded C04 contract of the C watershed, re-run here.",
+        "trusted_base": ["independent numpy oracle in contracts/watershed_parts.py", "bounded/specpart oracle"],
+        "assumptions": ["np_ptm* loops over the detected partitions are data dependent (range(nparts), list appends, argsort of a Python list): "
+                        "not brought under loop invariants; bounded replays only"],
+        "technique": "contract-based deductive verification of the call-site and ordering kernels + run-time contracts with an independent oracle for the partition post-conditions (bounded)",
+    },
 }
 
 _PENDING = "not yet brought under contract in the current build round (see DESIGN.md section 8 for the order of work)"
